@@ -56,6 +56,7 @@ out += ["", "%d runs of seeded changes against checks (a change seeded for C01 i
         "* `C15-invalidate-cache-short-circuit` (`InvalidateCache` short-circuits after the proposer cache): the scheduler driver uses a scripted beacon node, not the duties cache; C15's check now runs the cache stream of C20 with its answer-equality monitors.",
         "* `C06-deadliner-backpressure-deadlock` (the deadliner blocks on a full output buffer; `dutydb.Store` then blocks in `Add` under its lock): the dutydb driver uses a scripted deadliner; the real deadliner's stream (with new monitor `deadliner:add_blocked`) is now part of C06's check.",
         "* `C06-att-answer-shallow-copy` (answers share their checkpoints with the stored value): the driver never touched what it received; it now scribbles over every answer (`hx.Scribble`, the hostile caller), likewise the aggsigdb driver.",
+        "* `C20-active-set-alias` (the shared active-index slice is stored without cloning; a later `append` writes into memory shared by several epochs): the driver handed the cache exact-capacity slices, so every append reallocated; slices now carry spare capacity, as slices built by `append` do in production.",
         ""]
 txt = "\n".join(out)
 p = '/verif/DESIGN.md'
